@@ -341,6 +341,562 @@ pub fn case_strategy() -> impl Strategy<Value = Case> {
         })
 }
 
+// ------------------------------------------------------------------------------ libFuzzer decoder
+//
+// `case_from_bytes` maps fuzz bytes onto the domain of `case_strategy` (same ranges, same
+// invariants; `domain_violation` re-states them and is asserted on every decoded case).
+// Layout: a fixed-size header (glyph count, flags, GDEF, the three scripts, two request slots),
+// then features, feature variations, lookups, strings. Reads past the end of the input yield
+// zeros, and collections stop at their minimum length once the input is exhausted, so a short
+// input is a small case. The decoder is total: every byte string decodes.
+//
+// A subtable's fields that `resolve` does not read for the lookup's type (e.g. `seqs` of a
+// ligature lookup) are not decoded; they get the smallest value of their strategy.
+
+use arbitrary::Unstructured;
+
+const FZ_GLYPH_CLASS: [u8; 16] = [0, 0, 0, 1, 1, 1, 1, 2, 2, 2, 3, 3, 3, 3, 3, 4];
+const FZ_MARK_MODE: [u8; 16] = [0, 0, 1, 1, 1, 2, 2, 2, 3, 3, 3, 4, 5, 1, 2, 3];
+const FZ_COORDS: [i16; 7] = [0, 8192, -8192, 16384, -16384, 1, -1];
+
+fn fz_u8(u: &mut Unstructured<'_>) -> arbitrary::Result<u8> {
+    u.arbitrary::<u8>()
+}
+
+/// `glyph()`: any u8, three quarters of the first bytes give 0..8; the second value is bits 3-5
+/// of the first byte (spare bits for the caller)
+fn fz_glyph_x(u: &mut Unstructured<'_>) -> arbitrary::Result<(u8, u8)> {
+    let b = fz_u8(u)?;
+    let x = (b >> 3) & 7;
+    if b < 0xC0 {
+        Ok((b & 7, x))
+    } else {
+        Ok((fz_u8(u)?, x))
+    }
+}
+
+fn fz_glyph(u: &mut Unstructured<'_>) -> arbitrary::Result<u8> {
+    Ok(fz_glyph_x(u)?.0)
+}
+
+/// `n` glyphs, but no more than `min` once the input is exhausted
+fn fz_glyphs(u: &mut Unstructured<'_>, min: usize, n: usize) -> arbitrary::Result<Vec<u8>> {
+    let mut v = Vec::new();
+    for k in 0..n {
+        if k >= min && u.is_empty() {
+            break;
+        }
+        v.push(fz_glyph(u)?);
+    }
+    Ok(v)
+}
+
+fn fz_cov(u: &mut Unstructured<'_>) -> arbitrary::Result<RawCov> {
+    let h = fz_u8(u)?;
+    let n = 1 + (h & 3) as usize;
+    let mut runs = Vec::new();
+    for k in 0..n {
+        if k >= 1 && u.is_empty() {
+            break;
+        }
+        let (g, x) = fz_glyph_x(u)?;
+        runs.push((g, [1u8, 1, 1, 1, 1, 2, 3, 4][x as usize]));
+    }
+    Ok(RawCov { runs, f2: h & 4 != 0 })
+}
+
+fn fz_covs(u: &mut Unstructured<'_>, n: usize) -> arbitrary::Result<Vec<RawCov>> {
+    let mut v = Vec::new();
+    for _ in 0..n {
+        if u.is_empty() {
+            break;
+        }
+        v.push(fz_cov(u)?);
+    }
+    Ok(v)
+}
+
+fn fz_classdef(u: &mut Unstructured<'_>) -> arbitrary::Result<RawClassDef> {
+    let h = fz_u8(u)?;
+    let n = ((h & 7) % 6) as usize;
+    let mut runs = Vec::new();
+    for _ in 0..n {
+        if u.is_empty() {
+            break;
+        }
+        let g = fz_glyph(u)?;
+        let x = fz_u8(u)?;
+        runs.push((g, 1 + (x & 3), 1 + ((x >> 2) & 3) % 3));
+    }
+    Ok(RawClassDef { runs, f2: h & 8 != 0 })
+}
+
+fn fz_flags(u: &mut Unstructured<'_>) -> arbitrary::Result<RawFlags> {
+    let a = fz_u8(u)?;
+    let b = fz_u8(u)?;
+    if a & 3 == 0 {
+        return Ok(RawFlags { ignore_base: false, ignore_lig: false, mark: 0, attach: 0, set: 0, rtl: false });
+    }
+    Ok(RawFlags {
+        ignore_base: (a >> 2) & 3 == 3,
+        ignore_lig: (a >> 4) & 3 == 3,
+        rtl: (a >> 6) & 3 == 3,
+        mark: FZ_MARK_MODE[(b & 15) as usize],
+        attach: 1 + ((b >> 4) & 3) % 3,
+        set: ((b >> 6) & 3) % 3,
+    })
+}
+
+/// `raw_records()` with `n` in 0..=3 records (0: the empty alternative)
+fn fz_records(u: &mut Unstructured<'_>, n: usize) -> arbitrary::Result<Vec<(u8, u8)>> {
+    let mut v = Vec::new();
+    for _ in 0..n {
+        if u.is_empty() {
+            break;
+        }
+        let s = fz_u8(u)? & 3;
+        v.push((s, fz_u8(u)?));
+    }
+    Ok(v)
+}
+
+#[derive(Clone, Copy, PartialEq)]
+enum FzRule {
+    /// ligature: set, input (the components), out
+    Lig,
+    /// context: + records, keep_order, align
+    Seq,
+    /// chaining context: + back, look
+    Chain,
+}
+
+fn fz_rule(u: &mut Unstructured<'_>, kind: FzRule) -> arbitrary::Result<RawRule> {
+    let set = fz_u8(u)?;
+    let h = fz_u8(u)?;
+    let mut r = RawRule { set, back: Vec::new(), input: Vec::new(), look: Vec::new(), records: Vec::new(), out: 0, keep_order: false, align: false };
+    r.input = fz_glyphs(u, 0, (h & 3) as usize)?;
+    if kind == FzRule::Chain {
+        r.back = fz_glyphs(u, 0, (((h >> 2) & 3) % 3) as usize)?;
+        r.look = fz_glyphs(u, 0, (((h >> 4) & 3) % 3) as usize)?;
+    }
+    if kind != FzRule::Lig {
+        let q = fz_u8(u)?;
+        r.records = fz_records(u, (q & 3) as usize)?;
+        r.keep_order = (q >> 2) & 7 == 7;
+        r.align = (q >> 5) < 5;
+    }
+    r.out = fz_glyph(u)?;
+    Ok(r)
+}
+
+fn fz_rules(u: &mut Unstructured<'_>, kind: FzRule) -> arbitrary::Result<Vec<RawRule>> {
+    let n = 1 + (fz_u8(u)? & 3) as usize;
+    let mut v = Vec::new();
+    for k in 0..n {
+        if k >= 1 && u.is_empty() {
+            break;
+        }
+        v.push(fz_rule(u, kind)?);
+    }
+    Ok(v)
+}
+
+fn fz_empty_classdef() -> RawClassDef {
+    RawClassDef { runs: Vec::new(), f2: false }
+}
+
+fn fz_outs(u: &mut Unstructured<'_>) -> arbitrary::Result<Vec<u8>> {
+    let n = 1 + (fz_u8(u)? & 3) as usize;
+    fz_glyphs(u, 1, n)
+}
+
+/// One subtable of a lookup of (resolved) GSUB type `ty`.
+fn fz_sub(u: &mut Unstructured<'_>, ty: u16) -> arbitrary::Result<RawSub> {
+    let fmt = fz_u8(u)?;
+    let cov = fz_cov(u)?;
+    let mut s = RawSub {
+        fmt,
+        cov,
+        outs: vec![0],
+        seqs: vec![vec![0]],
+        rules: Vec::new(),
+        classdefs: vec![fz_empty_classdef(), fz_empty_classdef(), fz_empty_classdef()],
+        share: false,
+        back: Vec::new(),
+        inp: Vec::new(),
+        look: Vec::new(),
+        records: Vec::new(),
+        keep_order: false,
+        null_empty_sets: false,
+    };
+    match ty {
+        1 => s.outs = fz_outs(u)?,
+        2 | 3 => {
+            let h = fz_u8(u)?;
+            let n = 1 + ((h & 3) % 3) as usize;
+            s.seqs.clear();
+            for k in 0..n {
+                if k >= 1 && u.is_empty() {
+                    break;
+                }
+                let m = 1 + ((h >> (2 + 2 * k)) & 3) % 3;
+                s.seqs.push(fz_glyphs(u, 1, m as usize)?);
+            }
+        }
+        4 => s.rules = fz_rules(u, FzRule::Lig)?,
+        5 | 6 => {
+            let h = fz_u8(u)?;
+            match fmt % 3 {
+                0 => {
+                    s.rules = fz_rules(u, if ty == 5 { FzRule::Seq } else { FzRule::Chain })?;
+                    s.null_empty_sets = h & 1 != 0;
+                }
+                1 => {
+                    s.null_empty_sets = h & 1 != 0;
+                    if ty == 5 {
+                        s.classdefs[0] = fz_classdef(u)?;
+                    } else {
+                        s.share = (h >> 1) % 5 < 2;
+                        s.classdefs[1] = fz_classdef(u)?;
+                        if !s.share {
+                            s.classdefs[0] = fz_classdef(u)?;
+                            s.classdefs[2] = fz_classdef(u)?;
+                        }
+                    }
+                    s.rules = fz_rules(u, if ty == 5 { FzRule::Seq } else { FzRule::Chain })?;
+                }
+                _ => {
+                    s.keep_order = h & 7 == 7;
+                    s.inp = fz_covs(u, (((h >> 3) & 3) % 3) as usize)?;
+                    if ty == 6 {
+                        let g = fz_u8(u)?;
+                        s.back = fz_covs(u, ((g & 3) % 3) as usize)?;
+                        s.look = fz_covs(u, (((g >> 2) & 3) % 3) as usize)?;
+                    }
+                    s.records = fz_records(u, ((h >> 5) & 3) as usize)?;
+                }
+            }
+        }
+        _ => {
+            let g = fz_u8(u)?;
+            s.outs = fz_outs(u)?;
+            s.back = fz_covs(u, ((g & 3) % 3) as usize)?;
+            s.look = fz_covs(u, (((g >> 2) & 3) % 3) as usize)?;
+        }
+    }
+    if s.rules.is_empty() {
+        s.rules.push(RawRule { set: 0, back: Vec::new(), input: Vec::new(), look: Vec::new(), records: Vec::new(), out: 0, keep_order: false, align: false });
+    }
+    Ok(s)
+}
+
+fn fz_lookup(u: &mut Unstructured<'_>, i: usize, nlookups: usize, nest_bias: bool) -> arbitrary::Result<RawLookup> {
+    let ty = fz_u8(u)? % 14;
+    let flags = fz_flags(u)?;
+    let h = fz_u8(u)?;
+    let nsubs = 1 + ((h & 3) % 3) as usize;
+    let level = ((h >> 2) & 3) % 3;
+    let e = fz_u8(u)?;
+    let ext = match e {
+        0..=159 => None,
+        160..=216 => Some(0),
+        _ => Some(1 + (e - 217)),
+    };
+    let t = lookup_type(i, ty, nest_bias, nlookups);
+    let mut subs = Vec::new();
+    for k in 0..nsubs {
+        if k >= 1 && u.is_empty() {
+            break;
+        }
+        subs.push(fz_sub(u, t)?);
+    }
+    Ok(RawLookup { ty, flags, subs, ext, level })
+}
+
+/// `coord()`: always three bytes
+fn fz_coord(u: &mut Unstructured<'_>) -> arbitrary::Result<i16> {
+    let sel = fz_u8(u)?;
+    let raw = u16::from_be_bytes([fz_u8(u)?, fz_u8(u)?]);
+    Ok(if sel < 154 { FZ_COORDS[(sel % 7) as usize] } else { (raw as i32 % 32769 - 16384) as i16 })
+}
+
+fn fz_gdef(u: &mut Unstructured<'_>) -> arbitrary::Result<RawGdef> {
+    let a = fz_u8(u)?;
+    let b = fz_u8(u)?;
+    let mut classes = Vec::with_capacity(64);
+    for _ in 0..32 {
+        let x = fz_u8(u)?;
+        classes.push(FZ_GLYPH_CLASS[(x & 15) as usize]);
+        classes.push(FZ_GLYPH_CLASS[(x >> 4) as usize]);
+    }
+    let mut attach = Vec::with_capacity(64);
+    for _ in 0..16 {
+        let x = fz_u8(u)?;
+        for k in 0..4 {
+            attach.push((x >> (2 * k)) & 3);
+        }
+    }
+    let mut sets = Vec::new();
+    for _ in 0..3 {
+        let mut m = [0u8; 8];
+        for x in m.iter_mut() {
+            *x = fz_u8(u)?;
+        }
+        sets.push((u64::from_le_bytes(m), fz_u8(u)? & 1 != 0));
+    }
+    sets.truncate(1 + (((b >> 6) & 3) % 3) as usize);
+    Ok(RawGdef {
+        present: a & 7 != 0,
+        has_classes: (a >> 3) & 7 != 7,
+        classes,
+        cls_f2: b & 1 != 0,
+        attach: if (b >> 1) & 3 != 0 { Some((attach, b & 8 != 0)) } else { None },
+        sets: if (b >> 4) & 3 != 0 { Some(sets) } else { None },
+        v13: a >> 6 == 3,
+    })
+}
+
+fn fz_script(u: &mut Unstructured<'_>) -> arbitrary::Result<RawScript> {
+    let f = fz_u8(u)?;
+    let mask = fz_u8(u)?;
+    let trk = fz_u8(u)?;
+    Ok(RawScript {
+        present: f & 1 == 0,
+        has_default: (f >> 1) & 7 != 7,
+        default_mask: if (f >> 4) & 3 != 3 { 0xFF } else { mask },
+        trk: if (f >> 6) & 1 != 0 { Some(trk) } else { None },
+        reverse: f >> 7 != 0,
+    })
+}
+
+/// always eleven bytes
+fn fz_request(u: &mut Unstructured<'_>) -> arbitrary::Result<RawRequest> {
+    let a = fz_u8(u)?;
+    let mask = fz_u8(u)?;
+    let b = fz_u8(u)?;
+    let mut tuple = Vec::new();
+    for _ in 0..2 {
+        tuple.push((fz_u8(u)?, fz_coord(u)?));
+    }
+    Ok(RawRequest {
+        feat_mask: if a & 3 != 3 { 0xFF } else { mask },
+        absent: (a >> 2) & 7 == 7,
+        alternate: match a >> 5 {
+            0..=4 => None,
+            k => Some(k - 5),
+        },
+        lang: [0u8, 0, 0, 1, 2][(b & 7) as usize % 5],
+        tuple: if (b >> 3) & 3 != 3 { Some(tuple) } else { None },
+    })
+}
+
+fn fz_fv(u: &mut Unstructured<'_>, h: u8) -> arbitrary::Result<RawFv> {
+    let axes = 1 + ((h >> 2) & 1);
+    let nrec = 1 + (((h >> 3) & 3) % 3) as usize;
+    let mut records = Vec::new();
+    for k in 0..nrec {
+        if k >= 1 && u.is_empty() {
+            break;
+        }
+        let r = fz_u8(u)?;
+        let mut conds = Vec::new();
+        for _ in 0..(r & 3) % 3 {
+            if u.is_empty() {
+                break;
+            }
+            let c = fz_u8(u)?;
+            conds.push((c & 1, fz_coord(u)?, fz_coord(u)?, (c >> 1) & 7 == 7));
+        }
+        let subst = if (r >> 3) & 7 != 7 {
+            let mut v = Vec::new();
+            for j in 0..1 + ((r >> 6) & 1) {
+                if j >= 1 && u.is_empty() {
+                    break;
+                }
+                let fi = fz_u8(u)?;
+                let n = (fz_u8(u)? % 3) as usize;
+                let mut ls = Vec::new();
+                for _ in 0..n {
+                    if u.is_empty() {
+                        break;
+                    }
+                    ls.push(fz_u8(u)?);
+                }
+                v.push((fi, ls));
+            }
+            Some(v)
+        } else {
+            None
+        };
+        records.push(RawFvRec { conds, null_cs: r & 4 != 0, subst });
+    }
+    Ok(RawFv { axes, records })
+}
+
+fn fz_atom(u: &mut Unstructured<'_>) -> arbitrary::Result<RawAtom> {
+    let a = fz_u8(u)?;
+    if a % 5 < 2 {
+        return Ok(RawAtom::G(fz_glyph(u)?));
+    }
+    let lookup = fz_u8(u)?;
+    let sub = fz_u8(u)?;
+    let rule = fz_u8(u)?;
+    let noise = u32::from_le_bytes([fz_u8(u)?, fz_u8(u)?, fz_u8(u)?, fz_u8(u)?]);
+    Ok(RawAtom::W { lookup, sub, rule, noise })
+}
+
+/// The ranges and invariants of `case_strategy`, restated as a predicate (None = inside).
+pub fn domain_violation(c: &Case) -> Option<&'static str> {
+    let cov_ok = |v: &RawCov| (1..=4).contains(&v.runs.len()) && v.runs.iter().all(|(_, l)| (1..=4).contains(l));
+    let cd_ok = |v: &RawClassDef| v.runs.len() <= 5 && v.runs.iter().all(|(_, l, k)| (1..=4).contains(l) && (1..=3).contains(k));
+    let recs_ok = |v: &Vec<(u8, u8)>| v.len() <= 3 && v.iter().all(|(s, _)| *s < 4);
+    if !(24..=63).contains(&c.nglyphs) {
+        return Some("nglyphs");
+    }
+    let g = &c.gdef;
+    if g.classes.len() != 64 || g.classes.iter().any(|k| *k > 4) {
+        return Some("gdef.classes");
+    }
+    if let Some((a, _)) = &g.attach {
+        if a.len() != 64 || a.iter().any(|k| *k > 3) {
+            return Some("gdef.attach");
+        }
+    }
+    if let Some(s) = &g.sets {
+        if !(1..=3).contains(&s.len()) {
+            return Some("gdef.sets");
+        }
+    }
+    if !(1..=6).contains(&c.lookups.len()) {
+        return Some("lookups");
+    }
+    for l in &c.lookups {
+        if l.ty >= 14 || l.level >= 3 || !(1..=3).contains(&l.subs.len()) || l.ext.map_or(false, |e| e >= 40) {
+            return Some("lookup");
+        }
+        let f = &l.flags;
+        let plain = !f.ignore_base && !f.ignore_lig && f.mark == 0 && f.attach == 0 && f.set == 0 && !f.rtl;
+        if !plain && !(f.mark <= 5 && (1..=3).contains(&f.attach) && f.set <= 2) {
+            return Some("flags");
+        }
+        for s in &l.subs {
+            if !cov_ok(&s.cov) || !(1..=4).contains(&s.outs.len()) || !(1..=3).contains(&s.seqs.len()) || s.seqs.iter().any(|q| !(1..=3).contains(&q.len())) {
+                return Some("sub.cov/outs/seqs");
+            }
+            if !(1..=4).contains(&s.rules.len()) || s.classdefs.len() != 3 || !s.classdefs.iter().all(cd_ok) {
+                return Some("sub.rules/classdefs");
+            }
+            if s.back.len() > 2 || s.inp.len() > 2 || s.look.len() > 2 || !s.back.iter().chain(&s.inp).chain(&s.look).all(cov_ok) || !recs_ok(&s.records) {
+                return Some("sub.back/inp/look/records");
+            }
+            for r in &s.rules {
+                if r.back.len() > 2 || r.input.len() > 3 || r.look.len() > 2 || !recs_ok(&r.records) {
+                    return Some("rule");
+                }
+            }
+        }
+    }
+    if !(1..=4).contains(&c.features.len()) || c.features.iter().any(|f| f.tag >= 12 || !(1..=3).contains(&f.lookups.len())) {
+        return Some("features");
+    }
+    if c.scripts.len() != 3 {
+        return Some("scripts");
+    }
+    let coord_ok = |v: i16| (-16384..=16384).contains(&v);
+    if let Some(fv) = &c.fv {
+        if !(1..=2).contains(&fv.axes) || !(1..=3).contains(&fv.records.len()) {
+            return Some("fv");
+        }
+        for r in &fv.records {
+            if r.conds.len() > 2 || r.conds.iter().any(|(a, x, y, _)| *a > 1 || !coord_ok(*x) || !coord_ok(*y)) {
+                return Some("fv.conds");
+            }
+            if let Some(s) = &r.subst {
+                if !(1..=2).contains(&s.len()) || s.iter().any(|(_, ls)| ls.len() > 2) {
+                    return Some("fv.subst");
+                }
+            }
+        }
+    }
+    if !(1..=2).contains(&c.requests.len()) {
+        return Some("requests");
+    }
+    for q in &c.requests {
+        if q.alternate.map_or(false, |a| a > 2) || q.lang > 2 || q.tuple.as_ref().map_or(false, |t| t.len() != 2 || t.iter().any(|(_, v)| !coord_ok(*v))) {
+            return Some("request");
+        }
+    }
+    if !(4..=8).contains(&c.strings.len()) || c.strings.iter().any(|s| s.len() > 5) {
+        return Some("strings");
+    }
+    None
+}
+
+/// Decode libFuzzer bytes into a case of the `programs` section (structure-aware, total).
+pub fn case_from_bytes(data: &[u8]) -> arbitrary::Result<Case> {
+    let mut u = Unstructured::new(data);
+    let u = &mut u;
+    // fixed-size header (110 bytes)
+    let nglyphs = 24 + fz_u8(u)? % 40;
+    let f = fz_u8(u)?;
+    let force_v11 = f & 3 == 3;
+    let nest_bias = (f >> 2) & 3 == 3;
+    let nreq = 1 + ((f >> 4) & 1) as usize;
+    let gdef = fz_gdef(u)?;
+    let scripts = vec![fz_script(u)?, fz_script(u)?, fz_script(u)?];
+    let mut requests = vec![fz_request(u)?, fz_request(u)?];
+    requests.truncate(nreq);
+    // features
+    let nfeat = 1 + (fz_u8(u)? & 3) as usize;
+    let mut features = Vec::new();
+    for k in 0..nfeat {
+        if k >= 1 && u.is_empty() {
+            break;
+        }
+        let h = fz_u8(u)?;
+        let n = 1 + ((h >> 4) % 3) as usize;
+        let mut lookups = Vec::new();
+        for j in 0..n {
+            if j >= 1 && u.is_empty() {
+                break;
+            }
+            lookups.push(fz_u8(u)?);
+        }
+        features.push(RawFeature { tag: (h & 15) % 12, lookups });
+    }
+    // feature variations
+    let h = fz_u8(u)?;
+    let fv = if h & 3 == 3 { Some(fz_fv(u, h)?) } else { None };
+    // lookups: the count is fixed before the bodies are decoded (the type of a lookup depends on it)
+    let nlookups = (1 + (fz_u8(u)? % 6) as usize).min(1 + u.len() / 8);
+    let mut lookups = Vec::new();
+    for i in 0..nlookups {
+        lookups.push(fz_lookup(u, i, nlookups, nest_bias)?);
+    }
+    // strings
+    let nstrings = 4 + (fz_u8(u)? % 5) as usize;
+    let mut strings = Vec::new();
+    for k in 0..nstrings {
+        if k >= 4 && u.is_empty() {
+            break;
+        }
+        let n = (fz_u8(u)? % 6) as usize;
+        let mut atoms = Vec::new();
+        for _ in 0..n {
+            if u.is_empty() {
+                break;
+            }
+            atoms.push(fz_atom(u)?);
+        }
+        strings.push(atoms);
+    }
+    let case = Case { nglyphs, gdef, lookups, features, scripts, fv, force_v11, nest_bias, requests, strings };
+    if let Some(what) = domain_violation(&case) {
+        panic!("C04 case_from_bytes left the domain of case_strategy: {}", what);
+    }
+    Ok(case)
+}
+
 // ------------------------------------------------------------------------------ resolution
 
 #[derive(Clone, Debug)]
@@ -666,27 +1222,26 @@ fn res_langsys(features: &[FeatureM], mask: u8, reverse: bool) -> LangSysM {
     LangSysM { required_feature: 0xFFFF, feature_indices: idx }
 }
 
+/// GSUB lookup type of lookup `i` (raw type selector `ty`) in a case with `nlookups` lookups
+/// (shared by `resolve` and the libFuzzer decoder, which decodes only the fields a type reads)
+fn lookup_type(i: usize, ty: u8, nest_bias: bool, nlookups: usize) -> u16 {
+    let t = TYPE_TABLE[ty as usize % TYPE_TABLE.len()];
+    if nest_bias && nlookups >= 3 {
+        match (i, t) {
+            (0..=2, 5 | 6) => t,
+            (0..=2, _) => 5 + (ty as u16 % 2),
+            (_, 5 | 6 | 8) => [2u16, 4, 1, 4][ty as usize % 4],
+            _ => t,
+        }
+    } else {
+        t
+    }
+}
+
 pub fn resolve(c: &Case) -> Program {
     let n = c.nglyphs.clamp(8, 63) as u16;
     let gdef = res_gdef(n, &c.gdef);
-    let types: Vec<u16> = c
-        .lookups
-        .iter()
-        .enumerate()
-        .map(|(i, l)| {
-            let t = TYPE_TABLE[l.ty as usize % TYPE_TABLE.len()];
-            if c.nest_bias && c.lookups.len() >= 3 {
-                match (i, t) {
-                    (0..=2, 5 | 6) => t,
-                    (0..=2, _) => 5 + (l.ty as u16 % 2),
-                    (_, 5 | 6 | 8) => [2u16, 4, 1, 4][l.ty as usize % 4],
-                    _ => t,
-                }
-            } else {
-                t
-            }
-        })
-        .collect();
+    let types: Vec<u16> = c.lookups.iter().enumerate().map(|(i, l)| lookup_type(i, l.ty, c.nest_bias, c.lookups.len())).collect();
     // contextual lookups get levels 0,1,2,0,… in list order (rotated by the first one's raw level)
     // so that chains of nested contexts of depth 2 exist whenever there are three of them
     let mut rank = c.lookups.first().map(|l| l.level as usize).unwrap_or(0);
